@@ -66,7 +66,7 @@ def outcome_name(kind, n):
 
 
 def check_outcome(cls, fam, kind, n, res):
-    from dali import frame
+    from dali import frame, command
     from dali.exceptions import MissingResponse, ResponseError
     arg = None if kind == "none" else (frame.BackwardFrame(n) if kind == "clean" else frame.BackwardFrameError(n))
     tag = f"{cls.__module__.replace('dali.', '')}.{cls.__qualname__}"
@@ -155,7 +155,9 @@ def check_outcome(cls, fam, kind, n, res):
                     bad(f".error is {e!r}")
             except Exception as ex:
                 bad(f".error raised {type(ex).__name__}")
-    elif fam == "generic":
+    if fam == "generic" or (fam == "bitmap" and not any(
+            "value" in vars(k) for k in cls.__mro__ if k is not command.Response and k is not object)):
+        # bitmap responses inherit .value from Response: the frame itself, whatever its bits say
         if kind == "clean":
             if st != "ok" or v is not arg:
                 bad(f"value is {v!r}; a generic response hands back the frame itself")
